@@ -77,6 +77,17 @@ func checkDumpParse(d *gen.Dump, before, after string, key string) *h.Viol {
 		}
 		return mk(cat, msg)
 	}
+	// the same dump through a reader that reports EOF together with its only Read,
+	// and through one that delivers it in two pieces: the snapshot must be the same
+	for di, sr := range []*scriptReader{{data: in, eofWithData: true}, {data: in, chunks: []int{len(in) / 2}}} {
+		alt := scanOnce(sr, plainOpts())
+		if alt.panicked != "" {
+			return mk("panic", "ScanSnapshot panicked: "+firstLine(alt.panicked))
+		}
+		if canonSnapshot(alt.snap) != canonSnapshot(res.snap) {
+			return mk(fmt.Sprintf("delivery-changes-snapshot:%d", di), "the same bytes delivered "+[]string{"in one Read together with EOF", "in two pieces"}[di]+" give a different snapshot")
+		}
+	}
 	// The statement is about the snapshot; whether the line that ends a dump also
 	// raises an error is not fixed by it, so the error is only checked when the
 	// dump runs to the end of the stream.
